@@ -16,6 +16,10 @@ REPLY_KINDS = {
     's': ('s', lambda i: ['tag-%d' % i]),
     'struct': ('(si)', lambda i: [['tag-%d' % i, i]]),
     'two': ('si', lambda i: ['tag-%d' % i, i]),
+    # one value that is not a struct but contains structs
+    'arrstruct': ('a(si)', lambda i: [[['tag-%d' % i, i], ['more', 2]]]),
+    'dictstruct': ('a{s(ii)}', lambda i: [[['tag-%d' % i, [i, 3]]]]),
+    'variant': ('v', lambda i: [R.Var('(si)', ['tag-%d' % i, i])]),
 }
 ERROR_KINDS = {
     'msg': ('s', lambda i: ['msg-%d' % i]),
@@ -58,6 +62,16 @@ CONFIGS = {
 }
 
 
+# systematic pairs: every (return-signature mode x reply shape x error shape)
+# for the first call next to a fixed second one
+for _m in ('unchecked', 'match', 'mismatch', 'empty'):
+    for _r in REPLY_KINDS:
+        for _e in ERROR_KINDS:
+            CONFIGS['sys/%s/%s/%s' % (_m, _r, _e)] = [
+                (7 if _e == 'bare' else None, _m, _r, _e, True),
+                (5, 'unchecked', 's', 'msg', True)]
+
+
 def expected_value(cfg, i):
     """('ok', value) or ('err', 'RemoteError') for a reply to call i"""
     deadline, mode, rk, ek, expect = cfg
@@ -67,6 +81,7 @@ def expected_value(cfg, i):
         return ('err', 'RemoteError', None)
     if not body:
         return ('ok', None)
+    body = R.as_plain(R.parse_sig(sig), body)
     if len(body) == 1 and sig[0] != '(':
         return ('ok', body[0])
     return ('ok', body)
@@ -352,6 +367,12 @@ def run(ctx):
                        'permuted through the configurations instead']
     names = ['plain2', 'deadlines2', 'deadlines2rev', 'mixed2', 'retsig2',
              'noreply2', 'same-deadline2', 'declared-vs-empty2']
+    sysnames = sorted(k for k in CONFIGS if k.startswith('sys/'))
+    if ctx.quick:
+        # a third of the systematic pairs (every mode x reply shape occurs)
+        names = names + [k for k in sysnames if k.endswith('/msg')]
+    else:
+        names = names + sysnames
     if ctx.quick:
         for n in names:
             explore.explore(ctx, CallScenario, {'config': n}, max_depth=12,
